@@ -58,6 +58,7 @@ static void do_yield(int point)
 
 /* global ticket for interleaving signatures */
 static size_t ticket;
+static size_t progress;		/* heartbeat only */
 static uint64_t sig_acc[MAXT];
 static void sig_event(int op)
 {
@@ -144,7 +145,7 @@ static void* atomic_thread(void* arg)
 	for (i = 0; i < MOPS; ++i)
 	{
 		aret[tid][i] = mtAtomicIncr(&actr);
-		if ((i & 1023) == 0) do_yield(200);
+		if ((i & 1023) == 0) { __atomic_add_fetch(&progress, 1, __ATOMIC_RELAXED); do_yield(200); }
 	}
 	pthread_barrier_wait(&bar);
 	/* CAS-increment phase */
@@ -153,13 +154,13 @@ static void* atomic_thread(void* arg)
 		size_t old;
 		do old = __atomic_load_n(&actr, __ATOMIC_RELAXED); while (mtAtomicCmpSwap(&actr, old, old + 1) != old);
 		aret[tid][MOPS + i] = old + 1;
-		if ((i & 1023) == 0) do_yield(201);
+		if ((i & 1023) == 0) { __atomic_add_fetch(&progress, 1, __ATOMIC_RELAXED); do_yield(201); }
 	}
 	pthread_barrier_wait(&bar);
 	for (i = 0; i < MOPS; ++i)
 	{
 		aret[tid][2 * MOPS + i] = mtAtomicDecr(&actr);
-		if ((i & 1023) == 0) do_yield(202);
+		if ((i & 1023) == 0) { __atomic_add_fetch(&progress, 1, __ATOMIC_RELAXED); do_yield(202); }
 	}
 	return 0;
 }
@@ -345,10 +346,29 @@ static int mode_rng(void)
 	return 0;
 }
 
+/* heartbeat: an unpinned thread reports the number of completed operations every second, so that the driver can tell
+   "slow on a loaded machine" (the count moves) from "stuck" (it does not) without a wall-clock verdict */
+static void* heartbeat(void* arg)
+{
+	char buf[64];
+	(void)arg;
+	for (;;)
+	{
+		struct timespec ts = {1, 0};
+		int n = snprintf(buf, sizeof(buf), "P %zu\n", __atomic_load_n(&ticket, __ATOMIC_RELAXED) + __atomic_load_n(&progress, __ATOMIC_RELAXED));
+		if (write(2, buf, (size_t)n) < 0) break;
+		nanosleep(&ts, 0);
+	}
+	return 0;
+}
+
 int main(int argc, char** argv)
 {
 	const char* mode = argc > 1 ? argv[1] : "once";
 	int i;
+	pthread_t hb;
+	pthread_create(&hb, 0, heartbeat, 0);
+	pthread_detach(hb);
 	for (i = 2; i + 1 < argc; i += 2)
 	{
 		if (!strcmp(argv[i], "-t")) T = atoi(argv[i + 1]);
@@ -359,10 +379,12 @@ int main(int argc, char** argv)
 		else if (!strcmp(argv[i], "-f")) FIRSTRACE = atoi(argv[i + 1]);
 		else if (!strcmp(argv[i], "-c"))
 		{
-			/* restrict to the first k CPUs */
+			/* restrict to k CPUs (which ones depends on the seed, so that concurrent harness processes do not all share CPU 0) */
 			cpu_set_t set; int k, nc = atoi(argv[i + 1]);
+			long ncpu = sysconf(_SC_NPROCESSORS_ONLN);
+			if (ncpu < 1) ncpu = 1;
 			CPU_ZERO(&set);
-			for (k = 0; k < nc; ++k) CPU_SET(k, &set);
+			for (k = 0; k < nc; ++k) CPU_SET((int)((SEED + (uint64_t)k) % (uint64_t)ncpu), &set);
 			sched_setaffinity(0, sizeof(set), &set);
 		}
 	}
